@@ -152,7 +152,8 @@ def _load(node):
 class Normalize(ast.NodeTransformer):
     """rewrites, inside ONE function: `yield`, `self.tag(…)`, attribute paths of namespace parameters, container mutation statements,
     augmented assignment.  The pseudo-functions `__…__` it introduces are understood by `Fn.call`."""
-    def __init__(self, namespaces=(), self_name=None, tag_method='tag'):
+    def __init__(self, namespaces=(), self_name=None, tag_method='tag', known=None):
+        self.known = known              # the flattened paths the translator knows (None: any)
         self.namespaces = set(namespaces)       # names whose attribute paths are flattened: ctx.file.header -> ctx_file_header
         self.self_name, self.tag_method = self_name, tag_method
         self.is_generator = False
@@ -171,11 +172,32 @@ class Normalize(ast.NodeTransformer):
     def visit_Attribute(self, node):
         p = self.path(node)
         if p is not None:
-            if isinstance(node.ctx, ast.Load):
+            # the longest known prefix of the path is the namespace variable; what follows are ordinary attributes / methods of its value
+            parts = p.split('_')      # (attribute names of namespaces contain no further structure we rely on: prefixes are tried longest first)
+            chain = []
+            n = node
+            while isinstance(n, ast.Attribute):
+                chain.append(n); n = n.value
+            chain = chain[::-1]       # outermost namespace attribute first
+            best = None
+            if self.known is not None:
+                for k in range(len(chain), 0, -1):
+                    cand = '_'.join([n.id] + [c.attr for c in chain[:k]])
+                    if cand in self.known:
+                        best = k; p = cand; break
+                if best is None: bad(node, f'{ast.unparse(node)}: an attribute path of {n.id} the translator does not know')
+            else:
+                best = len(chain)
+            top = chain[best - 1]
+            ctx = node.ctx if best == len(chain) else ast.Load()
+            if isinstance(ctx, ast.Load):
                 if p not in self.ns_reads: self.ns_reads.append(p)
             else:
                 if p not in self.ns_writes: self.ns_writes.append(p)
-            return _name(p, node.ctx, node)
+            res = _name(p, ctx, node)
+            for c in chain[best:]:
+                res = ast.copy_location(ast.Attribute(value=res, attr=c.attr, ctx=c.ctx), c)
+            return res
         return self.generic_visit(node)
 
     def visit_Name(self, node):
@@ -1175,7 +1197,7 @@ class Unit:
         # normalise a deep copy
         import copy
         f2 = copy.deepcopy(fnode)
-        nz = Normalize(namespaces=namespaces, self_name=self_name)
+        nz = Normalize(namespaces=namespaces, self_name=self_name, known=(set(ns_types) if ns_types is not None else None))
         body = []
         for st in f2.body:
             r = nz.visit(st)
